@@ -394,6 +394,8 @@ bool comp_close(zckCtx *zck)
     ZCK_WARN_UNUSED;
 bool comp_reset(zckCtx *zck)
     ZCK_WARN_UNUSED;
+ssize_t comp_end_chunk(zckCtx *zck, bool final)
+    ZCK_WARN_UNUSED;
 bool comp_add_to_dc(zckCtx *zck, zckComp *comp, const char *src, size_t src_size)
     ZCK_WARN_UNUSED;
 ssize_t comp_read(zckCtx *zck, char *dst, size_t dst_size, bool use_dict)
